@@ -510,6 +510,7 @@ impl Monitor for C13 {
             ("shallow_equal_ignore.repeated", 200),
             ("shallow_equal_ignore.multiset-nonadjacent-repeat", 200),
             ("same_tree_pairs", 10_000),
+            ("bases_with_wide_attribute_maps", 1_000),
             ("attribute_node_pairs", 1_000),
             ("string_value.checked", 10_000),
             ("transitivity.checked", 1_000),
@@ -528,7 +529,14 @@ impl Monitor for C13 {
         cfg.fragment = rng.chance(1, 4);
         cfg.allow_adjacent_text = rng.chance(1, 5);
         cfg.max_attrs = 3;
-        let base = if rng.chance(1, 3) { gen::gen_element(rng, &cfg) } else { gen::gen_document(rng, &cfg) };
+        let mut base = if rng.chance(1, 3) { gen::gen_element(rng, &cfg) } else { gen::gen_document(rng, &cfg) };
+        // an element with 15-40 attributes: comparisons that switch strategy beyond a size
+        if !crate::engine::legs_mode() && rng.chance(1, 8) {
+            let n = *rng.pick(&[15, 16, 17, 18, 31, 32, 33, 40]);
+            if widen_attrs(&mut base, rng, n) {
+                ctx.count("bases_with_wide_attribute_maps");
+            }
+        }
         if base.count() >= 3 {
             ctx.nontrivial(base.structural_hash());
         }
